@@ -233,7 +233,11 @@ def eval_model(pid, sub, cases, workdir):
             f.write(header)
             for i in idxs:
                 c = cases[i]
-                f.write(f"Eval vm_compute in (let i := {c['input']} in (Some ({sub['run']} i), {sub['spec']} i ({c['obs']}))).\n")
+                if sub.get("self_spec", True):
+                    # also: the executable statement holds of the model's own observation (model / spec coherence)
+                    f.write(f"Eval vm_compute in (let i := {c['input']} in let m := {sub['run']} i in (Some m, {sub['spec']} i ({c['obs']}), {sub['spec']} i m)).\n")
+                else:
+                    f.write(f"Eval vm_compute in (let i := {c['input']} in (Some ({sub['run']} i), {sub['spec']} i ({c['obs']}), true)).\n")
         files.append((path, idxs))
 
     def one(job):
@@ -328,6 +332,7 @@ def main():
     disagreements = 0
     spec_failures = []
     corr_failures = []
+    model_spec_failures = 0
     known = load_known(pid)
 
     if binary and not (pinfo["errors"] and any("coq build failed" in e for e in pinfo["errors"])):
@@ -358,6 +363,8 @@ def main():
                 try:
                     parsed = coqterm.norm(coqterm.parse(r))
                     model_obs, spec_ok = parsed[1][1], parsed[2]
+                    if parsed[3] != 1:
+                        model_spec_failures += 1
                     impl_obs = coqterm.norm(coqterm.parse(c["obs"]))
                 except Exception as e:
                     violations.append(("parse", f"cannot parse result of case {idx}: {e}", {"raw": r[:2000]}))
@@ -408,6 +415,8 @@ def main():
             path = write_replay(r, "spec")
             out_lines.append(f"VIOLATION property={pid} replay={path}")
             nviol += len(fresh)
+    if model_spec_failures and not spec_failures:
+        violations.append(("model_spec", f"the executable statement is false on the MODEL's own observation in {model_spec_failures} case(s): model and statement are incoherent", {}))
     if not out_lines and (corr_failures or not ok_proof or violations):
         rec = {"property": pid, "seed": seed, "tier": tier, "broken": []}
         if not ok_proof:
@@ -443,6 +452,7 @@ def main():
             "tag_histogram": tag_hist,
             "disagreements_checked": disagreements + len(spec_failures),
             "spec_failures_on_impl": len(spec_failures),
+            "spec_failures_on_model": model_spec_failures,
             "exhaustive": False,
         },
         "assumptions": cfg.get("assumptions", []),
